@@ -63,7 +63,7 @@ class LinkWorld:
             return uart.ZbossNcpProtocol(cfg, self.api)
         self.p = self.loop.run_until_complete(mk())
         self.tr = rxworld.RecTransport(self.log)
-        self.p._transport = self.tr
+        self.p.connection_made(self.tr)
         self.tasks = {}
 
     def mark(self):
@@ -107,7 +107,7 @@ class LinkWorld:
         self.loop.settle()
 
     def reconnect(self):
-        self.p._transport = self.tr
+        self.p.connection_made(self.tr)
         self.loop.settle()
 
     def shutdown(self):
